@@ -26,8 +26,8 @@ for p in patches:
                 res['vx'][r['unit']] = st if st in ('ok', 'ok(known)') else (st + ': ' + (r.get('reason') or ', '.join(sorted(set(l for fl in r.get('failures', []) for l in (fl['labels'] or [fl['function'] + '.body-safety'])))))[:160])
         for k in kx.run_units(list(registry.KX.values())):
             res['kx'][k['name']] = k['status'] + ((': ' + k.get('reason', '')[:100]) if k['status'] != 'ok' else '')
-        sel = [c for c in rp.cases() if c['tier'] == 'quick']
-        for n, r in rp.run_cases(sel).items():
+        sel = [] if os.environ.get('BENIGN_SKIP_BX') else [c for c in rp.cases() if c['tier'] == 'quick']
+        for n, r in (rp.run_cases(sel).items() if sel else []):
             res['bx'][n] = r['status']
         out[name] = res
         bad = {k: v for sec in res.values() for k, v in sec.items() if not str(v).startswith('ok') and not str(v).startswith('pass')}
